@@ -38,6 +38,8 @@ func TestSchedReplay(t *testing.T) {
 			Persistent   bool `json:"persistent"`
 			GlobalDepth  int  `json:"global_depth"`
 			RequestDepth int  `json:"request_depth"`
+			SelectOrder  int  `json:"select_order"`
+			PageSize     int  `json:"page_size"`
 		}
 	}
 	if err := json.Unmarshal(b, &doc); err != nil {
@@ -65,8 +67,12 @@ func TestSchedReplay(t *testing.T) {
 	if r.Mode == "cancel" || r.Mode == "hang-after-cancel" {
 		ro.Canceller, ro.HangAfterCancel = true, true
 	}
+	if r.Mode == "cancelled-then-again" {
+		ro.Canceller, ro.Again = true, true
+	}
+	ro.PageSize = r.PageSize
 	ref := refsem.Check(w.Cfg, r.Tuples, *r.Q)
-	o := w.RunCheck(w.Rows(r.Tuples), w.Internal(*r.Q), vsched.Config{Prefix: r.Choices, Trace: true}, ro)
+	o := w.RunCheck(w.Rows(r.Tuples), w.Internal(*r.Q), vsched.Config{Prefix: r.Choices, Trace: true, SelectOrder: r.SelectOrder}, ro)
 	fmt.Printf("REPLAY property=%s signature=%s\n  %s\n  config: %s\n  rows: %s\n  query: %s\n", doc.Property, doc.Signature, doc.What, cfg.Name, tuplesStr(r.Tuples), r.Q)
 	fmt.Printf("  reference: allowed=%v in-domain=%v\n  engine: %s cut=%v outcome=%s leaked=%v store-calls=%d\n", ref.Allowed, ref.InDomain, memb(o.Res), o.Cut, o.X.Outcome, o.X.Leaked, o.Calls)
 	fmt.Print(o.X.TraceString())
